@@ -36,6 +36,7 @@ def runStmts (rs : RS) : List Stmt → RS × String
         | (.error _, st'') => ({ rs with st := st'', known := false }, "rt")
       | _ => ({ rs with st := st' }, "rt")
     | .error .unc => ({ rs with known := false }, "unc")
+    | .error .mem => ({ rs with known := false }, "unc")
     | .error .fuel => ({ rs with known := false }, "unc")
 
 def lineStep (acc : RS × List String) (x : Nat × String) : RS × List String :=
